@@ -73,3 +73,41 @@ Fixpoint intern_all (it : interner) (ss : list str) : interner :=
   | [] => it
   | s :: t => intern_all (fst (intern it s)) t
   end.
+
+(* State::SuperIndex (`super[e]`, also `e in super`): the enclosing object may have no
+   super object at all.  [sup = None] is that case.
+     super_lookup      the code after repo commit db09b8e: the missing super object is
+                       reported whether or not the name is interned;
+     super_lookup_old  the code before: the never-interned shortcut came first. *)
+Inductive sres := SFound (v : N) | SUnknownField | SNoSuper.
+
+Definition super_lookup (it : interner) (sup : option obj) (s : str) : sres :=
+  match get_interned it s with
+  | Some name =>
+      match sup with
+      | None => SNoSuper                       (* want_super_field *)
+      | Some o => match find_field o name with Some v => SFound v | None => SUnknownField end
+      end
+  | None =>
+      match sup with
+      | None => SNoSuper
+      | Some _ => SUnknownField
+      end
+  end.
+
+Definition super_lookup_old (it : interner) (sup : option obj) (s : str) : sres :=
+  match get_interned it s with
+  | Some name =>
+      match sup with
+      | None => SNoSuper
+      | Some o => match find_field o name with Some v => SFound v | None => SUnknownField end
+      end
+  | None => SUnknownField
+  end.
+
+(* the reference: no interner shortcut *)
+Definition super_lookup_ref (it : interner) (sup : option obj) (s : str) : sres :=
+  match sup with
+  | None => SNoSuper
+  | Some o => match lookup_ref it o s with Some v => SFound v | None => SUnknownField end
+  end.
